@@ -74,13 +74,13 @@ impl Buffer {
             current.push_str(&line.text());
 
             if !line.wrapped {
-                text.push(current.trim_end().to_owned());
+                text.push(current.trim_end_matches(' ').to_owned());
                 current.clear();
             }
         }
 
         if !current.is_empty() {
-            text.push(current.trim_end().to_owned());
+            text.push(current.trim_end_matches(' ').to_owned());
         }
 
         text
